@@ -22,3 +22,29 @@ package pogs
 //@   ensures ptr: implies(off < 65535 && (t.Which() == schema.Type_Which_text || t.Which() == schema.Type_Which_data || t.Which() == schema.Type_Which_list || t.Which() == schema.Type_Which_structType || t.Which() == schema.Type_Which_interface || t.Which() == schema.Type_Which_anyPointer),
 //@     r == (M(sz.PointerCount) >= M(off)+1))
 
+
+// Field names are matched byte for byte.
+//@ func bytesStrEqual -> r
+//@   props C19
+//@   modifies nothing
+//@   ensures r == (len(b) == len(s) && forall(0, len(b), func(i int) bool { return b[i] == s[i] }))
+//@   loop 0 "range b"
+//@     invariant 0 <= rangeidx && rangeidx <= len(b) && len(b) == len(s)
+//@     invariant forall(0, rangeidx, func(i int) bool { return b[i] == s[i] })
+
+//@ func fieldLoc.isValid -> r
+//@   props C19
+//@   ensures r == (loc.i >= 0)
+
+//@ func fieldLoc.depth -> r
+//@   props C19
+//@   ensures r >= 1 && implies(len(loc.path) > 0, r == len(loc.path))
+
+// sub(i) extends the path of nested field indices by i (a plain index becomes the path {index, i};
+// the invalid location becomes the plain index i)
+//@ func fieldLoc.sub -> r
+//@   props C19
+//@   ensures implies(loc.i < 0, r.i == i && len(r.path) == 0)
+//@   ensures implies(loc.i >= 0 && len(loc.path) > 0, len(r.path) == len(loc.path)+1 && r.path[len(loc.path)] == i &&
+//@     forall(0, len(loc.path), func(k int) bool { return r.path[k] == loc.path[k] }))
+//@   ensures implies(loc.i >= 0 && len(loc.path) == 0, len(r.path) == 2 && r.path[0] == loc.i && r.path[1] == i)
